@@ -24,6 +24,7 @@ PRELUDE = r'''
 
 struct Arena { unsigned char *mem; size_t cap; size_t base; size_t len; };
 static std::map<std::string, Arena> arenas;
+static std::map<std::string, std::string> slots;
 static long op_index = 0;
 static void out(const std::string &k, const std::string &v) { printf("%ld %s=%s\n", op_index, k.c_str(), v.c_str()); }
 static std::string b(bool x) { return x ? "1" : "0"; }
@@ -67,7 +68,7 @@ int main() {
   while ((n = getline(&buf, &cap, stdin)) > 0) {
     line.assign(buf, n); if (!line.empty() && line.back() == '\n') line.pop_back();
     ++op_index; std::istringstream in(line); std::string op; in >> op;
-    if (op == "Z") { for (auto &kv : arenas) { __asan_unpoison_memory_region(kv.second.mem, kv.second.cap); free(kv.second.mem); } arenas.clear();
+    if (op == "Z") { slots.clear(); for (auto &kv : arenas) { __asan_unpoison_memory_region(kv.second.mem, kv.second.cap); free(kv.second.mem); } arenas.clear();
     } else if (op == "A") { std::string name, hexs; size_t base; in >> name >> hexs >> base; if (hexs == "-") hexs = "";
       Arena a; a.cap = 512; a.mem = (unsigned char *)aligned_alloc(64, a.cap); memset(a.mem, 0xEE, a.cap); a.base = 64 + base; a.len = hexs.size() / 2;
       for (size_t i = 0; i < a.len; ++i) a.mem[a.base + i] = (unsigned char)strtoul(hexs.substr(2 * i, 2).c_str(), nullptr, 16);
@@ -78,6 +79,12 @@ int main() {
     } else if (op == "S") { std::string name, hexs; size_t off; in >> name >> off >> hexs; Arena &a = arenas[name];
       for (size_t i = 0; i < hexs.size() / 2; ++i) a.mem[a.base + off + i] = (unsigned char)strtoul(hexs.substr(2 * i, 2).c_str(), nullptr, 16);
     } else if (op == "F") { std::string name; size_t bit; in >> name >> bit; Arena &a = arenas[name]; a.mem[a.base + bit / 8] ^= (unsigned char)(1u << (bit % 8));
+    } else if (op == "X") { std::string slot, kind; size_t arg; in >> slot >> kind >> arg; std::string &t = slots[slot];
+      if (kind == "trunc" && arg < t.size()) t.resize(arg);
+      else if (kind == "drop" && arg < t.size()) t.erase(arg, 1);
+      else if (kind == "dup" && arg < t.size()) t.insert(arg, 1, t[arg]);
+      else if (kind == "nine" && arg < t.size()) t[arg] = '9';
+      out("text", escape(t));
     } else if (op == "B") { std::string name; in >> name; Arena &a = arenas[name]; out("bytes", hex(a.mem + a.base, a.len));
     } else { dispatch(op, in); }
     printf("%ld !done\n", op_index);
@@ -221,10 +228,10 @@ class DriverGen:
             o.append(f"  auto dv = {self.make_call(sd, 'd', 'doff', 'dlen')}; auto sv = {self.make_call(sd, 's', 'soff', 'slen')};")
             o.append('  if (dv.Ok() && sv.Ok()) out("equals", b(dv.Equals(sv)) + b(sv.Equals(dv))); else out("equals", "n/a"); }')
         if "text" in self.want:
-            o.append(f"static void dump_{n}(const std::vector<long long> &pv, Arena &a, size_t off, size_t len, int ml, int cm, int grp, int base) {{ (void)pv;")
+            o.append(f"static void dump_{n}(const std::vector<long long> &pv, Arena &a, size_t off, size_t len, int ml, int cm, int grp, int base, const std::string &slot) {{ (void)pv;")
             o.append(f"  auto v = {self.make_call(sd, 'a', 'off', 'len')};")
             o.append("  auto o = ::emboss::TextOutputOptions().Multiline(ml).WithComments(cm).WithDigitGrouping(grp).WithNumericBase(base).WithAllowPartialOutput(!v.Ok());")
-            o.append('  out("text", escape(::emboss::WriteToString(v, o))); }')
+            o.append('  std::string t = ::emboss::WriteToString(v, o); slots[slot] = t; out("text", escape(t)); }')
             o.append(f"static void restore_{n}(const std::vector<long long> &pv, Arena &a, size_t off, size_t len, const std::string &text) {{ (void)pv;")
             o.append(f"  auto v = {self.make_call(sd, 'a', 'off', 'len')};")
             o.append('  out("restore", b(::emboss::UpdateFromText(v, text))); }')
@@ -257,11 +264,12 @@ class DriverGen:
                     o.append(f'    if (op == "E" && st == "{sd.name}") equals_{sd.name}(pv, a, off, len, s, soff, slen);')
             o.append('    if (op == "C") { out("dst", hex(a.mem + a.base, a.len)); out("src", hex(s.mem + s.base, s.len)); } }')
         if "text" in self.want:
-            o.append('  if (op == "T") { int ml, cm, grp, base; in >> ml >> cm >> grp >> base;')
+            o.append('  if (op == "T") { int ml, cm, grp, base; std::string slot; in >> ml >> cm >> grp >> base >> slot;')
             for sd in tops:
-                o.append(f'    if (st == "{sd.name}") dump_{sd.name}(pv, a, off, len, ml, cm, grp, base);')
+                o.append(f'    if (st == "{sd.name}") dump_{sd.name}(pv, a, off, len, ml, cm, grp, base, slot);')
             o.append("  }")
-            o.append('  if (op == "R") { std::string text; getline(in, text); if (!text.empty() && text[0] == \' \') text.erase(0, 1); text = unescape(text);')
+            o.append('  if (op == "R") { std::string text; getline(in, text); if (!text.empty() && text[0] == \' \') text.erase(0, 1);')
+            o.append('    if (!text.empty() && text[0] == \'@\') text = slots[text.substr(1)]; else text = unescape(text);')
             for sd in tops:
                 o.append(f'    if (st == "{sd.name}") restore_{sd.name}(pv, a, off, len, text);')
             o.append('    out("bytes", hex(a.mem + a.base, a.len)); }')
